@@ -291,7 +291,13 @@ func (t *sseClientTransport) handleEndpointEvent(endpointURL string) {
 	}
 
 	t.endpoint = parsedURL
-	close(t.endpointChan) // Signal that the endpoint has been received.
+	// Signal that the endpoint has been received. A server may repeat the event: closing the
+	// channel a second time would panic in the reader goroutine.
+	select {
+	case <-t.endpointChan:
+	default:
+		close(t.endpointChan)
+	}
 }
 
 // handleMessageEvent processes message events from the server.
